@@ -333,6 +333,9 @@ fn parse_attr(a: &proj::Attrs, ty: &str) -> Obs {
         (if l.is_empty() { None } else { match num(l) { Some(x) => Some(x), None => return Obs::Bad(r.into()) } }, match num(h) { Some(x) => Some(x), None => return Obs::Bad(r.into()) })
     } else if let Some(l) = r.strip_suffix("..") {
         (match num(l) { Some(x) => Some(x), None => return Obs::Bad(r.into()) }, None)
+    } else if let Some((l, h)) = r.split_once("..") {
+        // rasn reads the text as a Rust range expression: `lo..hi` and `..hi` exclude `hi`
+        (if l.is_empty() { None } else { match num(l) { Some(x) => Some(x), None => return Obs::Bad(r.into()) } }, match num(h) { Some(x) => Some(x - 1), None => return Obs::Bad(r.into()) })
     } else {
         match num(r) {
             Some(x) => (Some(x), Some(x)),
